@@ -136,9 +136,26 @@ def gen_task(rng, kind, nmax=24, props=()):
     raise HarnessError(f"unknown kind {kind}")
 
 
+def _twin(rng, spec):
+    """A second space-time generator with the temporal and spatial sizes of the
+    first one swapped (same row counts, other factorisation): two tasks that
+    only differ this way expose state shared between generators (module-level
+    caches keyed too coarsely)."""
+    t = dict(spec, key=rng.randrange(2**31))
+    t["nt"], t["n"] = spec["n"], spec["nt"]
+    t["bt"], t["bo"] = spec["bo"], spec["bt"]
+    if t["method"] == "grid" and t["dim"] == 2:
+        t["method"] = "uniform"
+    return t if _valid_spec(t) else None
+
+
 def gen_program(rng, kinds, max_tasks=2, max_ops=40, nmax=24, float_mode="x64"):
     ntasks = rng.randint(1, max_tasks)
     tasks = [gen_task(rng, rng.choice(kinds), nmax) for _ in range(ntasks)]
+    if ntasks == 2 and tasks[0]["kind"] == "nonstatio" and tasks[0]["cartesian"] and rng.random() < 0.5:
+        tw = _twin(rng, tasks[0])
+        if tw is not None:
+            tasks[1] = tw
     nops = rng.randint(max(3, max_ops // 4), max_ops)
     ops = []
     # swarm style: every program draws its own palette of execution modes
@@ -168,12 +185,15 @@ def _fdtype():
 C_IN, C_VAL, C_PAR = 1000.0, 5000.0, 9000.0  # offsets of the row-identity encoding
 
 
-def obs_tables(n, in_dim, val_dim, params, param_1d=True):
+NET_OFF = 20000.0  # offset of network i in multi-network tables: i * NET_OFF in every column
+
+
+def obs_tables(n, in_dim, val_dim, params, param_1d=True, off=0.0):
     """Tables whose row r is recognisable in every column (exact in float32):
     pinn_in[r, j] = r + C_IN + 100 j, val[r, j] = r + C_VAL + 100 j,
     eq_params[k][r] = r + C_PAR + 100 idx(k)."""
     dt = _fdtype()
-    r = np.arange(n, dtype=dt)
+    r = np.arange(n, dtype=dt) + dt(off)
     if in_dim == 0:
         pin = r + C_IN
     else:
@@ -233,7 +253,7 @@ def build_task(spec):
             if net is None:
                 pins[name], vals[name], eqs[name] = None, None, {}
             else:
-                pin, val, eq = obs_tables(net["n"], net["in_dim"], net["val_dim"], net["params"])
+                pin, val, eq = obs_tables(net["n"], net["in_dim"], net["val_dim"], net["params"], off=i * NET_OFF)
                 pins[name], vals[name] = jnp.asarray(pin), jnp.asarray(val)
                 eqs[name] = {a: jnp.asarray(v) for a, v in eq.items()}
         return jinns.data.DataGeneratorObservationsMultiPINNs(
@@ -410,7 +430,7 @@ def substreams(spec, g, batch):
             if net is None:
                 continue
             name = f"u{i}"
-            sub = dict(net, b=spec["b"])
+            sub = dict(net, b=spec["b"], off=i * NET_OFF)
             out.append(_obs_stream(f"indices:{name}", sub, g.data_gen_obs[name], batch[name] if has else None))
     return out
 
@@ -421,7 +441,7 @@ def _obs_stream(name, spec, g, batch):
     else:
         pin = _rows(batch["pinn_in"])
         # row identity decoded from the first input column
-        ridx = np.rint(pin[:, 0] - C_IN).astype(np.int64).reshape(-1, 1)
+        ridx = np.rint(pin[:, 0] - C_IN - spec.get("off", 0.0)).astype(np.int64).reshape(-1, 1)
     return dict(name=name, key=np.asarray(g.key), store=_rows(np.asarray(g.indices).astype(np.int64)),
                 cursor=_cursor(g.curr_idx), batch=ridx, n=spec["n"], b=spec["b"])
 
